@@ -547,6 +547,16 @@ def startOnceOK (appId : Nat) (started : Bool) (reqs : List Req) : Bool :=
   if started then reqs.getLast? == some (startReq appId) && reqs.dropLast.all (fun r => !isSignalPkt r)
   else reqs.all (fun r => !isSignalPkt r)
 
+/-- the half of `resendOK` that needs no hypothesis about the pre-state: a (re-)send for binary `a` goes only
+to cores requested for `a` and - after the first attempt - only to cores that do not hold their binary
+at that moment ("re-send only to the cores still missing"); a core that is already loaded, e.g. by an
+earlier call with the same binary and app id, is never sent the binary again -/
+def resendOnlyOK (chips : List (Nat × Nat)) (a : App) (sent : List (Nat × Nat × List Nat)) (first : Bool) (appId : Nat)
+    (core : Nat → Nat → Nat → Core) : Bool :=
+  (allCores chips).all fun c =>
+    !wants { a with targets := sent } c.1 c.2.1 c.2.2 ||
+      (wants a c.1 c.2.1 c.2.2 && (first || !loaded a appId (core c.1 c.2.1 c.2.2)))
+
 /-! ### line protocol -/
 open Lean Rig.P
 
@@ -712,8 +722,13 @@ def handle (op : String) (j : Json) : R Json := do
       (← (← arr j "regions").mapM pairOfJson)))])
   | "resend_ok" =>
     let chips ← (← arr j "chips").mapM pairOfJson
-    pure (Json.mkObj [("ok", Json.bool (resendOK chips (← appOfJson (← field j "app"))
-      (← (← arr j "sent").mapM targetOfJson) (← bool j "first") (← nat j "app_id") (← coresOfJson (← arr j "cores"))))])
+    let a ← appOfJson (← field j "app")
+    let sent ← (← arr j "sent").mapM targetOfJson
+    let first ← bool j "first"
+    let appId ← nat j "app_id"
+    let cores ← coresOfJson (← arr j "cores")
+    pure (Json.mkObj [("ok", Json.bool (resendOK chips a sent first appId cores)),
+                      ("only", Json.bool (resendOnlyOK chips a sent first appId cores))])
   | "selects" =>
     pure (Json.bool (selects (← nat j "region") (← nat j "x") (← nat j "y")))
   | "post" =>
